@@ -91,11 +91,19 @@ def run_unit(unit, fn_override=None, canary_expect=None):
     return res
 
 
+def all_units(mod):
+    import importlib
+    units = list(mod.UNITS)
+    for m, a in getattr(mod, 'EXTRA_UNITS', []):
+        units.append(getattr(importlib.import_module(m), a))
+    return units
+
+
 def _run_unit_job(args):
     modname, unit_name, canary_name = args
     import importlib
     mod = importlib.import_module(modname)
-    unit = [u for u in mod.UNITS if u.name == unit_name][0]
+    unit = [u for u in all_units(mod) if u.name == unit_name][0]
     if canary_name is None:
         return (unit_name, None, run_unit(unit))
     can = [c for c in unit.canaries if c.name == canary_name][0]
@@ -149,7 +157,7 @@ def check_property(prop, modname, tier='quick', native=None, workers=None, extra
     t0 = time.time()
     seed = int(os.environ.get('VERIF_SEED', '0') or 0)
     mod = importlib.import_module(modname)
-    units = mod.UNITS
+    units = all_units(mod)
     repo = Repo()
     jobs = []
     for u in units:
